@@ -148,7 +148,14 @@ def run(ctx, texts, want_tree=True):
         pin.append(" ".join(x for x in f.get("input", "").split(",") if x))
     impl_parse = C.run_impl(ctx, "parse", pin, tag="iparse")
     model_parse = C.run_model(ctx, "parse", pin, tag="mparse") if have_model else [None] * len(lines)
-    impl_tree = C.run_impl(ctx, "tree", lines, tag="itree") if want_tree else [None] * len(lines)
+    # a text on which the lexer layer already did not return is not fed to the later layers again
+    dead = {i for i, l in enumerate(impl_lex) if l.startswith(("HANG", "CRASH"))}
+    if want_tree:
+        live = [i for i in range(len(lines)) if i not in dead]
+        tl = dict(zip(live, C.run_impl(ctx, "tree", [lines[i] for i in live], tag="itree")))
+        impl_tree = [tl.get(i, impl_lex[i]) for i in range(len(lines))]
+    else:
+        impl_tree = [None] * len(lines)
     model_tree = (C.run_model(ctx, ["tree", ucpath], lines, tag="mtree") if (have_model and want_tree)
                   else [None] * len(lines))
     recs = []
